@@ -1,5 +1,6 @@
 import WK.Proofs.Repl_Store
 import WK.Model.ReplDrv
+import WK.Proofs.C03_Ledger
 /-
   C01 — acknowledged channel appends survive failover and crashes.
 
@@ -401,5 +402,126 @@ theorem c01_log_matching (e f : Ident) (he : Sealed e) (hf : Sealed f) (h : e.di
   rw [hc, hd, h7]
 
 example : Sealed ⟨⟨1, 1, 1⟩, 1, 0, 0, .biz 1, .zero, Dig.mk ⟨1, 1, 1⟩ 1 0 0 (.biz 1) .zero 0⟩ := ⟨0, rfl⟩
+
+end WK.C01
+
+/-! ## phase 3 additions -/
+namespace WK.C01
+open WK WK.Repl
+
+/-- **c01_no_loss_without_install** — no operation other than an install (commit with any answers,
+    deposed-leader replays, follower repair, crash, restart) ever removes a stored proposal from any
+    voter's log: entries can only be lost inside `Install` (recovery's `Replace`). -/
+theorem c01_no_loss_without_install (s : Sys) (op : Op) (h : op.noReplace = true) (v : Nat) :
+    ∀ p ∈ (s.storeOf v).props, p ∈ ((step s op).1.storeOf v).props :=
+  step_stores_sync appendOnly_relS s op h v
+
+example : (Op.commit 1 ⟨1, 1, 1⟩ 1 1 0 [.D, .D, .D]).noReplace = true ∧ (Op.repair 1 2 1).noReplace = true := by decide
+
+theorem sealM_auth {m m' : Manifest} {cs : List Nat} {es : List Ident} (h : sealM m cs = some (m', es)) :
+    m'.a = m.a ∧ m'.last = m.last := by
+  unfold sealM at h
+  split at h
+  · cases h
+  · cases h; exact ⟨rfl, rfl⟩
+
+theorem writeBarrier_ok {s : Sys} {i : Nat} {a : Authority} {rec : RState} {acks : List Ack} {s' : Sys} {fr : RState}
+    (h : writeBarrier s i a rec acks = (s', .ok fr)) :
+    fr.leo = rec.leo + 1 ∧ fr.manifest.a = a.id ∧
+    ∃ m, (runRound s i a.q acks ⟨m, [0], rec.leo⟩).2.1 = true ∧ fr.manifest = m := by
+  unfold writeBarrier at h
+  split at h
+  · cases h
+  · split at h
+    · cases h
+    · dsimp only at h
+      split at h
+      · cases h
+      · rename_i m es hs
+        obtain ⟨ha, hl⟩ := sealM_auth hs
+        generalize hr : runRound s i a.q acks ⟨m, [0], rec.leo⟩ = rr at h
+        obtain ⟨s2, ok, out⟩ := rr
+        simp only at h
+        split at h
+        · cases h
+        · rename_i hok
+          simp only [Prod.mk.injEq, Except.ok.injEq] at h
+          obtain ⟨_, hfr⟩ := h
+          subst hfr
+          refine ⟨by simp only; rw [hl], by simp only; rw [ha], m, ?_, rfl⟩
+          rw [hr]; simpa using hok
+
+/-- **c01_barrier** — when `Install` makes an owner writable (result `installed`), the frontier it
+    publishes is either the empty log or ends in an entry of the NEW authority: a non-empty
+    frontier written under another authority never becomes writable without the current-term
+    barrier, and that barrier was acknowledged by a durable round (local vote + q durable votes,
+    c01_receipt_needs_quorum) on top of the recovered prefix. -/
+theorem c01_barrier (s : Sys) (i : Nat) (ch0 : QChan) (a : Authority) (ps : List PSpec) (acks : List Ack)
+    (s' : Sys) (id : AuthId) (leo hw : Nat) (hch : chanOf s i = some (some ch0))
+    (h : installRecover s i ch0 a ps acks = (s', .installed id leo hw)) :
+    ∃ ch', chanOf s' i = some (some ch') ∧ ch'.ready = true ∧ ch'.hw = ch'.frontier.leo ∧
+      ch'.retained = [] ∧ ch'.pending = none ∧
+      (ch'.frontier = RState.zero ∨ (ch'.frontier.leo > 0 ∧ ch'.frontier.manifest.a = a.id)) := by
+  unfold installRecover at h
+  split at h
+  · cases h
+  · cases hrec : recoverPrefix s a.q ps with
+    | error e => simp [hrec] at h
+    | ok sel =>
+      simp only [hrec] at h
+      have f1 := (repairPrefix_frame trivRel s ps i sel).1
+      generalize repairPrefix s ps i sel = rp at f1 h
+      obtain ⟨s1, r1⟩ := rp
+      have h1 : chanOf s1 i = some (some ch0) := by rw [f1.chanOf]; exact hch
+      cases r1 with
+      | error e => simp at h
+      | ok recovered =>
+        simp only at h
+        -- the frontier handed to installFinish
+        have key : ∀ (fin : Sys × Except Err RState), chanOf fin.1 i = some (some ch0) →
+            (∀ fr, fin.2 = .ok fr → fr = RState.zero ∨ (fr.leo > 0 ∧ fr.manifest.a = a.id)) →
+            installFinish i ch0 a fin = (s', .installed id leo hw) →
+            ∃ ch', chanOf s' i = some (some ch') ∧ ch'.ready = true ∧ ch'.hw = ch'.frontier.leo ∧
+              ch'.retained = [] ∧ ch'.pending = none ∧
+              (ch'.frontier = RState.zero ∨ (ch'.frontier.leo > 0 ∧ ch'.frontier.manifest.a = a.id)) := by
+          intro fin hc hfr hfin
+          obtain ⟨s2, r2⟩ := fin
+          cases r2 with
+          | error e => simp [installFinish] at hfin
+          | ok frontier =>
+            obtain ⟨nd, hn, _⟩ := chanOf_some hc
+            simp only [installFinish, hn, Prod.mk.injEq] at hfin
+            obtain ⟨hs, _⟩ := hfin
+            subst hs
+            exact ⟨_, chanOf_setChan hn _, rfl, rfl, rfl, rfl, hfr frontier rfl⟩
+        split at h
+        · rename_i hcond
+          refine key _ ?_ ?_ h
+          · rw [(writeBarrier_frame trivRel s1 i a recovered acks).1.chanOf]; exact h1
+          · intro fr hfr
+            right
+            have : writeBarrier s1 i a recovered acks = ((writeBarrier s1 i a recovered acks).1, .ok fr) := by
+              rw [← hfr]
+            obtain ⟨hl, ha, _⟩ := writeBarrier_ok this
+            exact ⟨by omega, ha⟩
+        · rename_i hcond
+          refine key (s1, .ok recovered) h1 ?_ h
+          intro fr hfr
+          simp only [Except.ok.injEq] at hfr
+          subst hfr
+          simp only [not_and, Bool.not_eq_true, Bool.not_eq_false'] at hcond
+          by_cases hz : recovered = RState.zero
+          · left; exact hz
+          · right
+            have := hcond hz
+            unfold frontierUsesAuthority at this
+            simp only [Bool.and_eq_true, decide_eq_true_eq] at this
+            exact this
+
+/-- non-vacuity: the second install of the §8.1-free history writes a barrier at offset 2 -/
+example :
+    let s := (step (step Sys.default (.install 1 ⟨⟨1, 1, 1⟩, 2, false⟩ [.all, .all, .all] [.D, .D, .D])).1
+                (.commit 1 ⟨1, 1, 1⟩ 1 1 0 [.D, .D, .D])).1
+    (step s (.install 2 ⟨⟨1, 2, 1⟩, 2, false⟩ [.all, .all, .all] [.D, .D, .X])).2 = .installed ⟨1, 2, 1⟩ 2 2 := by decide
 
 end WK.C01
